@@ -85,6 +85,47 @@ func gen(t *rapid.T) Case {
 			g := vkit.GenGJ(t, vkit.GeomOpts{Types: []string{"MultiPoint", "LineString", "MultiLineString", "Polygon"},
 				MinMembers: 0, MaxMembers: 3, MaxPts: 5, Coord: hg, ExactGrid: true})
 			c.Recv = &g
+			if rapid.IntRange(0, 3).Draw(t, "longrecv") == 2 {
+				// a receiver of 15 to 257 vertices - next to the multiples of 16, 32 and 64 at which code that looks at a long
+				// line in strides would change its step - all of them Inside or OnEdge except (two cases in three) exactly one,
+				// at a drawn index, which is Outside: Outside has to be reported for that one vertex wherever it stands
+				var in, out []vkit.P2
+				for x := -2 * lim; x <= 2*lim; x++ {
+					for y := -2 * lim; y <= 2*lim; y++ {
+						q := vkit.MkP(float64(x)/2, float64(y)/2)
+						if vkit.PIP(q, c.Polys) == vkit.Outside {
+							out = append(out, q)
+						} else {
+							in = append(in, q)
+						}
+					}
+				}
+				if len(in) > 0 && len(out) > 0 {
+					n := rapid.SampledFrom([]int{16, 32, 32, 48, 64, 64, 96, 96, 128, 192, 256}).Draw(t, "longrecvn") + rapid.IntRange(-1, 1).Draw(t, "longrecvoff")
+					pts := make([]vkit.P2, n)
+					for i := range pts {
+						pts[i] = in[rapid.IntRange(0, len(in)-1).Draw(t, "longrecvin")]
+					}
+					if rapid.IntRange(0, 2).Draw(t, "longrecvout") > 0 {
+						k := rapid.SampledFrom([]int{0, n - 1, n / 2, 16, 32, 64}).Draw(t, "longrecvk")
+						if k >= n || rapid.Bool().Draw(t, "longrecvanyk") {
+							k = rapid.IntRange(0, n-1).Draw(t, "longrecvk2")
+						}
+						pts[k] = out[rapid.IntRange(0, len(out)-1).Draw(t, "longrecvoutp")]
+					}
+					switch rapid.IntRange(0, 3).Draw(t, "longrecvtype") {
+					case 0:
+						g = vkit.GJ{T: "LineString", Pts: pts}
+					case 1:
+						g = vkit.GJ{T: "MultiLineString", Rings: [][]vkit.P2{pts[:2], pts, pts[:1]}}
+					case 2:
+						g = vkit.GJ{T: "Polygon", Rings: [][]vkit.P2{pts[:3], pts}}
+					default:
+						g = vkit.GJ{T: "MultiPoint", Pts: pts}
+					}
+					c.Recv = &g
+				}
+			}
 		}
 	case "float":
 		scale := rapid.SampledFrom([]float64{1, 1e-3, 1e6}).Draw(t, "scale")
